@@ -18,8 +18,8 @@ var (
 	c10Shape = []string{"single", "grouped", "two-blocks"}
 	// "non-matching-metavariable-name": 'package elsewhere' in a change that also declares a metavariable named elsewhere
 	// (the package clause is a name, not a pattern)
-	c10Pkg = []string{"none", "matching", "non-matching", "rename-matching", "rename-non-matching", "non-matching-metavariable-name"}
-	c10Pref  = []string{"context", "minus"}
+	c10Pkg  = []string{"none", "matching", "non-matching", "rename-matching", "rename-non-matching", "non-matching-metavariable-name"}
+	c10Pref = []string{"context", "minus"}
 	// kind of the code pattern behind the guards: the guard has to hold for every kind, also when the two
 	// sides of the change are of different kinds (a single expression replaced by several statements)
 	c10Code = []string{"expr", "expr-to-stmts", "stmts", "decl"}
